@@ -230,7 +230,7 @@ for (h, nid, k) in ((4, 0, 0), (5, 0, 0), (6, 1, 0), (4, 2, 0), (4, 3, 0), (4, 3
     UC("c05-sub-ascii-needle%d-h%d-k%d" % (nid, h, k), "exact", "sub_ascii_concrete_needle::<%d,%d,%d>()" % (h, nid, k), {"C05": "quick", "C02": "quick", "C03": "quick"}, "bounded", EXACT_FNS[1:],
        "substring_match_ascii with the concrete needle %s on every ASCII haystack of %d bytes: decision, leftmost best occurrence, contiguous witness, score, None appends nothing" % (CN[nid], h),
        unwind=max(h + 3, 7), bound="ASCII haystack %d (all bytes), concrete needle %s, %s" % (h, CN[nid], CFGNAME[k]), cost=3, core=(nid == 0 and h == 4))
-for (h, nid) in ((3, 2), (3, 3)):
+for (h, nid) in ((3, 2),):
     UC("c02-sub-ascii-needle%d-h%d" % (nid, h), "exact", "sub_ascii_concrete_needle::<%d,%d,0>()" % (h, nid), {"C02": "quick", "C05": "quick", "C03": "quick"}, "bounded", EXACT_FNS[1:],
        "substring_match_ascii with the concrete needle %s on every ASCII haystack of %d bytes: decision, leftmost best occurrence, contiguous valid witness, score, None appends nothing" % (CN[nid], h),
        unwind=7, bound="ASCII haystack %d (all bytes), concrete needle %s, DEFAULT" % (h, CN[nid]), cost=3, core=True)
